@@ -304,7 +304,11 @@ def summary(fn, norm, calls_pred=None, ctx=None, cut=False):
     for at in (atoms(fn, ctx, cut=cut) if (ctx or cut) else atoms(fn)):
         cj = at.conjuncts()
         # `!(lo..=hi).contains(&x) => fail` is the pair of refusals x < lo => fail, x > hi => fail
-        conds = cj if (len(cj) == 2 and at.false_fail and not at.true_fail) else [at.cond()]
+        def _plain(ret):
+            return not (ret and all(r[0] == "const" for r in ret))
+        both_cont = not at.true_fail and not at.false_fail and _plain(at.true_ret) and _plain(at.false_ret)
+        # (and where both outcomes just go on - a value selected by `(lo..hi).contains(&x)` - the chain lo <= x, x < hi does the same)
+        conds = cj if (len(cj) == 2 and ((at.false_fail and not at.true_fail) or both_cont)) else [at.cond()]
         # `(a, b) == (c, d) ? T : F` is the short-circuit chain a == c ? (b == d ? T : F) : F
         inner_true = {}
         c0 = conds[0]
